@@ -75,6 +75,7 @@ fn one_run(out: &mut Out, s: &Stream, outs: &[usize], to: Fmt, packets: &Packets
 	let key = format!("{what} seed-bytes {}", s.data.len());
 	out.count(&format!("runs.{}.{}.{}", s.fmt.name(), if detected { "detected" } else { "explicit" }, to.name()));
 	out.count(&format!("packets.{}", match packets { Packets::All => "all", Packets::Every(1) => "1-byte", Packets::Every(_) => "fixed", Packets::At(_) => "cuts" }));
+	out.count(&format!("trace_events.{}", match r.trace.len() { 0..=99 => "<100", 100..=999 => "100-999", 1000..=9999 => "1000-9999", 10_000..=99_999 => "10^4-10^5", _ => ">=10^5" }));
 	out.count(&format!("docs.{}", match n { 0..=2 => "0-2", 3..=29 => "3-29", 30..=300 => "30-300", 301..=3000 => "301-3000", _ => "3001+" }));
 
 	// The statement of the property.
@@ -138,7 +139,7 @@ fn one_run(out: &mut Out, s: &Stream, outs: &[usize], to: Fmt, packets: &Packets
 			out.case("loopmodel", &format!("{kind} {ends_f} {outs_f} {} {cap}", nats(&packets.sizes(s.data.len()))), &tr, true);
 		}
 	} else {
-		out.count("traces.too_long_for_case_line(rust acceptor only)");
+		out.count(&format!("traces.too_long_for_case_line(rust acceptor only).events>={}", if r.trace.len() >= 1_000_000 { "10^6" } else { "300000" }));
 	}
 }
 
@@ -202,6 +203,51 @@ fn lag_part(out: &mut Out, rng: &mut Rng, thorough: bool) {
 						one_run(out, &s, &outs, to, &packets, detected, &Shape { model }, kind % 3 == 0);
 					}
 				}
+			}
+		}
+	}
+	// Malformed tail: the stream's documents followed by bytes the source
+	// format rejects. The translation fails; the documents in front of the
+	// failure must still have been written before the reader was asked for data
+	// two documents further on.
+	for f in STREAM_FMTS {
+		for _ in 0..(if thorough { 24 } else { 6 }) {
+			let n = rng.range(4, 40) as usize;
+			let scalar_free = rng.chance(1, 2);
+			let s = gen_stream(rng, f, &StreamOpts { n, scalar_free, first_collection: true, big: 0, big_size: 0, plain: false });
+			if s.ends.len() < 4 {
+				continue;
+			}
+			let tail: &[u8] = match f {
+				Fmt::Json => *rng.pick::<&[u8]>(&[b"\n{\"a\": tru", b"\n@", b"\n[1, 2", b" ]"]),
+				Fmt::Msgpack => *rng.pick::<&[u8]>(&[b"\xc1", b"\x93\x01", b"\xda\x00\x10ab"]),
+				_ => *rng.pick::<&[u8]>(&[b"---\n{a: [1, 2\n---\nb\n", b"---\n- a\n b: : [\n", b"---\n\"unterminated\n"]),
+			};
+			let mut data = (*s.data).clone();
+			if f == Fmt::Json && data.last() == Some(&b'\n') {
+				data.pop();
+			}
+			data.extend_from_slice(tail);
+			let data = std::rc::Rc::new(data);
+			let to = *rng.pick(&STREAM_FMTS);
+			let Ok(outs) = out_ends(&s, to) else { continue };
+			let kind = rng.below(8);
+			let packets = packetisation(rng, &s, kind);
+			let r = run_real(&data, &packets, Some(f), to);
+			if r.result.is_ok() {
+				out.count("malformed_tail.accepted_by_xt(not used)");
+				continue;
+			}
+			// documents fully written before the failure
+			let done = outs.iter().take_while(|o| **o <= r.written).count();
+			out.count(&format!("malformed_tail.{}.documents_written_before_error.{}", f.name(), if done == s.ends.len() { "all" } else if done + 1 == s.ends.len() { "all-but-last" } else { "fewer" }));
+			let bad = first_bad(2, 0, &s.ends, &outs, &r.trace);
+			out.eval("lag_ok_before_error", &format!("{} {} {}", s.desc, to.name(), packets.describe()), true);
+			if let Some(i) = bad {
+				out.fail("lag_ok", "", format!("{} + malformed tail -> {} (explicit), source {}: {}; ends={} outEnds={}", s.desc, to.name(), packets.describe(), describe_ev(&r.trace, i), nats(&s.ends[..s.ends.len().min(12)]), nats(&outs[..outs.len().min(12)])));
+			}
+			if r.trace.len() <= MAX_EVENTS {
+				out.case("lagok", &format!("0 {} {} {}", nats(&s.ends), nats(&outs), trace_field(&r.trace)), &verdict(bad), true);
 			}
 		}
 	}
